@@ -335,8 +335,15 @@ def check(gir, include_dirs=(), strict_includes=True):
                     if not ms:
                         bad('property-accessor-is-not-a-method', '%s %s=%s' % (path_of(el), attr, el.get(attr)))
                     elif not any(m.get(back) == el.get('name') for m in ms):
-                        bad('property-accessor-not-mutual', '%s %s=%s but the method says %r'
-                            % (path_of(el), attr, el.get(attr), [m.get(back) for m in ms]))
+                        # a method can name one property only: when the property it names claims it too, this
+                        # property's claim cannot be answered (two annotations/heuristics compete for one method)
+                        rivals = [p for p in owner.findall(GI + 'property')
+                                  if p is not el and p.get(attr) == el.get(attr) and any(m.get(back) == p.get('name') for m in ms)]
+                        if rivals:
+                            stats['double_claimed_accessors'] = stats.get('double_claimed_accessors', 0) + 1
+                        else:
+                            bad('property-accessor-not-mutual', '%s %s=%s but the method says %r'
+                                % (path_of(el), attr, el.get(attr), [m.get(back) for m in ms]))
         elif tag == GI + 'alias':
             for t in value_types(el):
                 type_ok(t, el, alias_target=True)
